@@ -11,9 +11,9 @@ reg("C05",
     bound="all 64 placements x {unencrypted/no key, unencrypted/unauthenticated key, unencrypted/authenticated key, encrypted} x {value, CCCD}; histories from the encrypted state: quick: depth 8 for protected placements (reaches the fixpoint on the unchanged tree), depth 5 for the others; thorough: all reachable states (fixpoint) for protected placements, depth 8 for the others; alphabet 40 events per characteristic (4 link states, Read, Read Blob offsets 0/1/4, 5 Read By Type, up to 5 Read Multiple, Write 4/0 bytes, Write Command, Prepare x2, Execute 0/1, CCCD Read/Read Blob/Write 1,2,0/Write Command 3, notify, indicate, l2cap_output, Confirmation)",
     units=[dict(src="harness/C05_encryption.cpp",
                 variants=_c05_variants)],
-    quick_deadline=40, thorough_deadline=500,
+    quick_deadline=60, thorough_deadline=500,
     assumptions=[
-        "reference rule from the documentation: the innermost level (characteristic, service, server) carrying any of the three options decides and protects iff it is requires_encryption; may_require_encryption on a bound value means 'not required' (@attention in encryption.hpp). The implementation lets may_require_encryption inherit the outer level (stricter); nothing is demanded for those 15 placements, they are reported as classes/notes only",
+        "reference rule from the documentation: the innermost level (characteristic, service, server) carrying any of the three options decides and protects iff it is requires_encryption; may_require_encryption on a bound value means 'not required' (@attention in encryption.hpp). The implementation lets may_require_encryption inherit the outer level (stricter); nothing is demanded for those 7 placements (chr=may under svc=req; chr=may or svc=may directly under srv=req), they are reported as classes/notes only",
         "only the direction stated by the property is demanded (protected and unencrypted => refused, nothing exposed, nothing modified); availability on encrypted links (e.g. Prepare Write always refused for protected values) belongs to C07",
         "error code demanded for single-attribute requests and for the failing attribute of Read Multiple; Read By Type only checked for non-exposure; Execute Write only for 'memory unchanged'; Read Blob offsets <= value length (beyond that Invalid Offset vs. security error is not fixed by the property)",
         "Prepare Write to a CCCD is not sent (null dereference of the client configuration there is C01's finding)",
